@@ -465,6 +465,15 @@ func (*Ufs) Read(req *SrvReq) {
 			}
 		}
 
+		// only offsets the protocol allows: 0, or the end of an entry already returned
+		if tc.Offset != 0 {
+			i := sort.SearchInts(fid.direntends, int(tc.Offset))
+			if tc.Offset > uint64(len(fid.dirents)) || i >= len(fid.direntends) || fid.direntends[i] != int(tc.Offset) {
+				req.RespondError(Ebadoffset)
+				return
+			}
+		}
+
 		switch {
 		case tc.Offset > uint64(len(fid.dirents)):
 			count = 0
